@@ -10,13 +10,18 @@ RULE = ("generated clusters: a Service with 1..3 ports (named/unnamed, numeric /
         "ready in {true,false,unknown}, duplicate and IPv6 addresses, pods with named container ports and labels; backend references by "
         "number and by name (matching, missing, wrong-number-on-unnamed-port), NGINX and NGINX Plus; plus the sub-selector variant. The "
         "sorted server list / error class of the real controller code is compared with the model, and with the Spec computed independently in "
-        "Python from the property's words. Non-trivial: at least one slice of the service carries the target port.")
+        "Python from the property's words. (resource) one Ingress / VirtualServer / VirtualServerRoute / TransportServer with 2..5 backends "
+        "(default backend, paths over two rules, upstreams with backups) over 2..4 Services that are ready, not ready, without slices, ExternalName "
+        "or missing with a stale slice left behind, use-cluster-ip included, through the real createIngressEx / createVirtualServerEx / "
+        "createTransportServerEx: every backend must be given the ready endpoints of its own Service. Non-trivial: at least one slice of the "
+        "service carries the target port.")
 TRUSTED = ["net.JoinHostPort twin (brackets iff the address contains ':')", "lister order: a named target port is resolved on the first pod; generated pods agree on their named ports"]
 ASSUMPTIONS = ["a multi-port Service names all its ports (Kubernetes validation)"]
 LEVEL_TEXT = ("Lean 4 theorems over the model of getEndpointsForPortFromEndpointSlices/getTargetPort/findPort/selectEndpointSlicesForPort/"
               "filterReadyEndpointsFrom: a returned address is exactly join(addr, targetPort) of a ready endpoint of a slice of this Service "
               "carrying the target port (soundness and completeness), each address once, IPv6 bracketed; not-ready / unknown endpoints, other "
-              "ports and other Services contribute nothing; the service port is the one the backend refers to; an empty result is an error, never an empty list.")
+              "ports and other Services contribute nothing; the service port is the one the backend refers to; an empty result is an error, never an empty list; "
+              "the backends of one resource are resolved independently (backends_resolved_independently) and a backend whose Service is missing gets no servers (missing_service_no_servers).")
 LEVEL_NOTE = "Assurance = weaker of (theorems about the model, correspondence with the real code on store-backed listers)."
 TECHNIQUE = "Lean 4 proof (set characterisation of the server list) + model/implementation correspondence"
 
@@ -111,10 +116,62 @@ def running_cases(rng, tier):
     return cases
 
 
+RES_STATES = ["r1", "r2", "r3", "n", "e", "m", "x"]
+
+
+def gen_resource_case(rng, kind=None):
+    """One resource with several backends / upstreams over a small cluster in which some Services are missing (with a stale slice
+    left behind), have no slices, nothing ready, or are ExternalName: through the real createIngressEx / createVirtualServerEx /
+    createTransportServerEx. Every backend must get the ready endpoints of ITS Service and port, whatever its neighbours are."""
+    kind = kind or rng.choice(["ing", "ing", "vs", "vsr", "ts"])
+    nsvc = 2 + rng.below(3)
+    states = [rng.choice(RES_STATES) for _ in range(nsvc)]
+    if not any(s.startswith("r") for s in states):
+        states[rng.below(nsvc)] = "r2"
+    cip = 1 if (kind == "ing" and rng.chance(1, 5)) else 0
+    if cip:
+        states = [("e" if s == "x" else s) for s in states]
+    names = ["s%d" % i for i in range(nsvc)]
+    bes = []
+    for n in range(2 + rng.below(4)):
+        b = rng.choice(names)
+        if kind == "ing":
+            if n == 0 and rng.chance(1, 2):
+                b = "D:" + b
+        elif rng.chance(1, 4):
+            ext = [names[i] for i, s in enumerate(states) if s == "x"]
+            b = b + "+" + (rng.choice(ext) if ext and rng.chance(2, 3) else rng.choice(names))
+        bes.append(b)
+    return "reseps plus=%d kind=%s cip=%d svcs=%s be=%s" % (rng.below(2), kind, cip, "&".join("%s:%s" % (n, s) for n, s in zip(names, states)), ",".join(bes))
+
+
+def spec_resource(kv):
+    """The property from its words: per backend, the ready endpoints of the referenced Service's port; nothing if the Service is
+    gone or has nothing ready; the external name under NGINX Plus; the cluster IP under use-cluster-ip."""
+    states = dict(x.split(":") for x in kv["svcs"].split("&"))
+    out = []
+    for b in kv["be"].split(","):
+        b = b[2:] if b.startswith("D:") else b
+        for name in (b.split("+") if kv["kind"] != "ing" else [b]):
+            st, i = states[name], int(name[1:])
+            if st == "m":
+                out.append([])
+            elif kv["cip"] == "1" and kv["kind"] == "ing" and st != "x":
+                out.append(["10.96.0.%d:80" % (i + 1)])
+            elif st == "x":
+                out.append(["ext%d.example.com:80" % i] if kv["plus"] == "1" else [])
+            elif st.startswith("r"):
+                out.append(sorted("10.%d.0.%d:8080" % (i + 1, j + 1) for j in range(int(st[1:]))))
+            else:
+                out.append([])
+    return ";".join("b%d=%s" % (n, ",".join(l)) for n, l in enumerate(out))
+
+
 def gen(rng, tier):
     n = 1000 if tier == "quick" else 20000
     cases = [dict(line=gen_case(rng), tags=["backend"], nontrivial=True) for _ in range(n)]
     cases += [dict(line=gen_case(rng, sub=True), tags=["subselector"], nontrivial=True) for _ in range(n // 4)]
+    cases += [dict(line=gen_resource_case(rng), tags=["resource"], nontrivial=True) for _ in range(n // 2)]
     return cases + running_cases(rng, tier)
 
 
@@ -212,6 +269,14 @@ def judge(case, impl, model, spec):
     if impl is None or model is None:
         return dict(corr="missing output impl=%r model=%r" % (impl, model))
     kv = dict(x.split("=", 1) for x in case["line"].split()[1:])
+    if case["line"].startswith("reseps "):
+        want = spec_resource(kv)
+        if impl != want:
+            bad = [a for a, b in zip(impl.split(";"), want.split(";")) if a != b]
+            return dict(spec="a backend of the resource is not given the ready endpoints of its own Service: real %s, property %s (first difference %s)" % (impl, want, bad[:1]))
+        if impl != model:
+            return dict(corr="impl=%r model=%r" % (impl, model))
+        return {}
     want = spec_servers(kv)
     r = {}
     if want is not None:
